@@ -255,7 +255,8 @@ class stDiGraph(AbstractSourceSinkGraph):
         edge_multiplicity = copy.deepcopy(self._condensation.graph["edge_multiplicity"])
         utils.logger.debug(f"{__name__}: edge_multiplicity for edges in the condensation: {edge_multiplicity}")
 
-        for u, v in (edges_to_ignore or []):
+        # The ignore list denotes a set: an edge named twice must not be subtracted twice
+        for u, v in dict.fromkeys(edges_to_ignore or []):
             # If (u,v) is an edge between different SCCs
             # Then the corresponding edge to ignore is between the two SCCs
             if not self.is_scc_edge(u, v):
